@@ -235,6 +235,7 @@ type wpH struct {
 	desBase map[int]int  // ... when the instance (re)appeared in Instances()
 	present map[int]bool
 	syncDone chan error // != nil: a getInstancesAndSync call is waiting for the cloud's answer
+	raced    bool       // the Kill loop gave up (timeoutTERM 15 ms) before KillContainer's result had been observed
 }
 
 func (h *wpH) vm(n int) *wpVM {
@@ -301,9 +302,10 @@ func (h *wpH) closePool() {
 const wpDeadline = 20 * time.Second
 
 var wpStuckCases int // after a few stuck cases the run stops generating (each costs wpDeadline)
+var wpDiscarded int  // scenarios not recorded because the harness lost a race against a 15 ms timer of the code under test
 
 func (h *wpH) wait(code int, what string, cond func() bool) bool {
-	if h.stuck != 0 {
+	if h.stuck != 0 || h.raced {
 		return false
 	}
 	if wpWait(what, cond) {
@@ -874,6 +876,23 @@ func wpScenario(t *testing.T, r *vRand, mode string) (string, []string, map[stri
 		}
 		h.emit(fmt.Sprintf("OKill %s", gN(wpU(u))), ret)
 		if ok && shortTerm && !already {
+			// timeoutTERM is 15 ms of real time here.  If the Kill loop has already given up now, the observation
+			// just taken may or may not contain the effects of the give-up (drain, shutdown): the harness lost the
+			// race it needs to describe the sequence as "OKill, then OGiveUp".  Such a scenario is not recorded.
+			h.pool.mtx.Lock()
+			for _, w := range h.pool.workers {
+				rr := w.running[u]
+				if rr == nil {
+					rr = w.starting[u]
+				}
+				if rr != nil && rr.givenup {
+					h.raced = true
+				}
+			}
+			h.pool.mtx.Unlock()
+			if h.raced {
+				return
+			}
 			n := h.started[u]
 			if _, g := h.gated[u]; g {
 				// the Kill loop may give up only on a runner; keep the sequence simple: land first
@@ -977,7 +996,7 @@ func wpScenario(t *testing.T, r *vRand, mode string) (string, []string, map[stri
 		}
 		h.emit(fmt.Sprintf("OProbeBegin %s %s", gN(int64(n)), rs), 0)
 	}
-	for k := 0; k < nops && good && h.stuck == 0; k++ {
+	for k := 0; k < nops && good && h.stuck == 0 && !h.raced; k++ {
 		known := h.knownInstances()
 		x := r.Intn(100)
 		switch {
@@ -1249,6 +1268,10 @@ func wpScenario(t *testing.T, r *vRand, mode string) (string, []string, map[stri
 	}
 	h.finishPending()
 	h.closePool()
+	if h.raced && h.stuck == 0 {
+		h.tags["discarded"] = 1
+		return "", nil, h.tags, true
+	}
 	if h.stuck != 0 {
 		h.emit(fmt.Sprintf("OStuck %s", gN(int64(h.stuck))), 0)
 		return fmt.Sprintf("mkwp %s %s", cfg, gList(h.steps)), h.descs, h.tags, false
@@ -1275,6 +1298,10 @@ func TestVerifC14WP(t *testing.T) {
 		}
 		r := vCaseRand(seed, i)
 		term, descs, tags, good := wpScenario(t, r, mode)
+		if tags["discarded"] > 0 {
+			wpDiscarded++
+			continue
+		}
 		if !good {
 			tags["op=OStuck"] = 1
 			wpStuckCases++
@@ -1294,6 +1321,12 @@ func TestVerifC14WP(t *testing.T) {
 			t.Logf("generation stopped after case %d: %d cases ended with a STUCK observation", i, wpStuckCases)
 			break
 		}
+	}
+	if wpDiscarded > 0 {
+		t.Logf("%d scenario(s) not recorded (Kill loop gave up before KillContainer's result had been observed)", wpDiscarded)
+	}
+	if wpDiscarded*10 > n+10 {
+		t.Errorf("too many scenarios discarded: %d of %d", wpDiscarded, n)
 	}
 	cs.Write()
 }
